@@ -134,7 +134,7 @@ Theorem C12_insert_lawful :
             end)
        (fun w' : world K V T =>
           self w' = self w /\
-          logged w w' (ev_drops (idK E k ++ idV E v)) /\
+          logged w w' (ev_drops (idV E v ++ idK E k)) /\
           find_idx ck (ck k) (Spec.elems (self w)) = None /\ len (self w) = cap (self w)) w.
 Proof. exact (fun K V Q T E debug ck cq HL => insert_lawful E debug ck cq HL). Qed.
 Print Assumptions C12_insert_lawful.
@@ -150,7 +150,7 @@ Theorem C12_insert_key_value_lawful :
           r = snd (l_insert ck (Spec.elems (self w)) k v true))
        (fun w' : world K V T =>
           self w' = self w /\
-          logged w w' (ev_drops (idK E k ++ idV E v)) /\
+          logged w w' (ev_drops (idV E v ++ idK E k)) /\
           find_idx ck (ck k) (Spec.elems (self w)) = None /\ len (self w) = cap (self w)) w.
 Proof. exact (fun K V Q T E debug ck cq HL => insert_key_value_lawful E debug ck cq HL). Qed.
 Print Assumptions C12_insert_key_value_lawful.
@@ -172,7 +172,7 @@ Theorem C12_checked_insert_lawful :
               then Spec.elems (self w') = Spec.elems (self w) ++ [(k, v)] /\
                    r = Some None /\ log w' = log w
               else Spec.elems (self w') = Spec.elems (self w) /\ self w' = self w /\
-                   r = None /\ logged w w' (ev_drops (idK E k ++ idV E v))
+                   r = None /\ logged w w' (ev_drops (idV E v ++ idK E k))
           end)
        (fun _ : world K V T => False) w.
 Proof. exact (fun K V Q T E debug ck cq HL => checked_insert_lawful E debug ck cq HL). Qed.
@@ -189,7 +189,7 @@ Theorem C12_insert_ii_lawful :
           (find_idx ck (ck k) (Spec.elems (self w)) = None -> len (self w) < cap (self w)))
        (fun w' : world K V T =>
           self w' = self w /\
-          logged w w' (ev_drops (idK E k ++ idV E v)) /\
+          logged w w' (ev_drops (idV E v ++ idK E k)) /\
           find_idx ck (ck k) (Spec.elems (self w)) = None /\ len (self w) = cap (self w)) w.
 Proof. exact (fun K V Q T E debug ck cq HL => insert_ii_lawful E debug ck cq HL). Qed.
 Print Assumptions C12_insert_ii_lawful.
@@ -303,7 +303,7 @@ Theorem C12_s_insert_lawful :
           (find_idx ck (ck k) (Spec.elems (self w)) = None -> len (self w) < cap (self w)))
        (fun w' : world K unit T =>
           self w' = self w /\
-          logged w w' (ev_drops (idK E k ++ idV E tt)) /\
+          logged w w' (ev_drops (idV E tt ++ idK E k)) /\
           find_idx ck (ck k) (Spec.elems (self w)) = None /\ len (self w) = cap (self w)) w.
 Proof. exact (fun K Q T E debug ck cq HL => s_insert_lawful E debug ck cq HL). Qed.
 Print Assumptions C12_s_insert_lawful.
@@ -324,7 +324,7 @@ Theorem C12_s_replace_lawful :
           (find_idx ck (ck k) (Spec.elems (self w)) = None -> len (self w) < cap (self w)))
        (fun w' : world K unit T =>
           self w' = self w /\
-          logged w w' (ev_drops (idK E k ++ idV E tt)) /\
+          logged w w' (ev_drops (idV E tt ++ idK E k)) /\
           find_idx ck (ck k) (Spec.elems (self w)) = None /\ len (self w) = cap (self w)) w.
 Proof. exact (fun K Q T E debug ck cq HL => s_replace_lawful E debug ck cq HL). Qed.
 Print Assumptions C12_s_replace_lawful.
